@@ -55,8 +55,13 @@ class PromptOracle(Contract):
 
     def requires(self, v):
         pl = v.a.pattern_list
-        return [('C16:waits-for-prompt-or-continuation', And(pl.len == 2, eq(pl.get(0), v.g['prompt']),
-                                                              eq(pl.get(1), v.g['continuation'])))]
+        out = [('C16:waits-for-prompt-or-continuation', And(pl.len == 2, eq(pl.get(0), v.g['prompt']),
+                                                             eq(pl.get(1), v.g['continuation'])))]
+        if 'want_timeout' in v.g and v.g['kills'] == 0:
+            # every wait of the command itself uses the timeout the caller gave (None = wait indefinitely, 0 = poll);
+            # only the re-synchronisation after an interrupt has its own (1 s)
+            out.append(('C16:waits-with-the-timeout-it-was-given', same(v.a.timeout, v.g['want_timeout'])))
+        return out
 
     def modifies(self, v, out):
         return [(v.old.self, 'before', T.Text)] if out.kind == 'ret' else []
@@ -180,7 +185,9 @@ class AsyncRunCommand(Contract):
         lines = b.symlist('cmdlines', [('line', T.Text)], scalar=True)
         repl_ghost(b, lines)
         self._fix_prompts(b, me)
-        return dict(repl=me, cmdlines=lines, timeout=b.opt('timeout', lambda: b.real('timeout')))
+        t = b.opt('timeout', lambda: b.real('timeout'))
+        b.ghost('want_timeout', t)
+        return dict(repl=me, cmdlines=lines, timeout=t)
 
     def _fix_prompts(self, b, me):
         if hasattr(b, 'ctx'):
@@ -214,7 +221,9 @@ class RunCommand(Contract):
         # the lines the command splits into are chosen by the splitlines oracle; the ghost refers to that list
         repl_ghost(b, b.symlist('cmdlines', [('line', T.Text)], scalar=True))
         AsyncRunCommand._fix_prompts(self, b, me)
-        return dict(self=me, command=b.str('command', 's'), timeout=b.opt('timeout', lambda: b.real('timeout')),
+        t = b.opt('timeout', lambda: b.real('timeout'))
+        b.ghost('want_timeout', t)
+        return dict(self=me, command=b.str('command', 's'), timeout=t,
                     async_=b.const(b.choice('async_', [False, True])))
 
     def outcomes(self, v):
